@@ -342,3 +342,33 @@ func H_StringLit() {
 	}
 	vf.Reach("decoded")
 }
+
+// H_UnicodeEscape: \u00XY and \U000000XY with two SYMBOLIC hex digits decoded by the real scanner/parser vs the reference.
+func H_UnicodeEscape() {
+	long := vf.Bool()
+	hx := vf.Bytes(2)
+	for _, c := range hx {
+		vf.Assume(hexv(c) >= 0)
+	}
+	content := []byte{'e', '\\'}
+	if long {
+		content = append(content, 'U', '0', '0', '0', '0', '0', '0')
+	} else {
+		content = append(content, 'u', '0', '0')
+	}
+	content = append(content, hx...)
+	want, ok, _ := refDecode(content)
+	vf.Assert(ok, "reference-accepts-unicode-escape")
+	src := append(append([]byte{'"'}, content...), '"')
+	expr, diags := hclsyntax.ParseExpression(src, "u.hcl", hcl.InitialPos)
+	vf.Assert(!diags.HasErrors(), "unicode-escape-parses")
+	if diags.HasErrors() {
+		return
+	}
+	got, vdiags := expr.Value(nil)
+	vf.Assert(!vdiags.HasErrors() && got.Type() == cty.String, "unicode-escape-evaluates")
+	if !vdiags.HasErrors() && got.Type() == cty.String {
+		vf.Assert(got.AsString() == cty.StringVal(string(want)).AsString(), "unicode-escape-decodes-to-the-code-point")
+	}
+	vf.Reach("decoded")
+}
